@@ -1,12 +1,12 @@
 (* Proofs/HeaderKV.v (codec) - the header block codec: termination / no panic of the checked decoder,
    the panic of the unchecked one, encode/decode round trip, length of the encoding. *)
 From Coq Require Import List NArith Lia ZifyBool ZifyNat ZifyN Bool.
-From MV Require Import Lib.Bytes Lib.Dec Model.HeaderKV.
+From MV Require Import Lib.Bytes Lib.Dec Model.CodecParams Model.HeaderKV.
 Import ListNotations.
 Open Scope N_scope.
 
 (* a successfully decoded string leaves strictly less input *)
-Lemma decode_str_ok_len chk rest s r : decode_str chk rest = SOk s r ->
+Lemma decode_str_ok_len chk i rest s r : decode_str chk false i rest = SOk s r ->
   (length r + 4 <= length rest)%nat /\ rest = firstn 4 rest ++ s ++ r.
 Proof.
   unfold decode_str. destruct rest as [|a [|b [|c [|d r0]]]]; try (destruct chk; discriminate).
@@ -16,13 +16,13 @@ Proof.
   - unfold dropN. rewrite skipn_length. cbn [length]. lia.
   - cbn [firstn app]. now rewrite takeN_dropN.
 Qed.
-Lemma decode_str_inv_len chk rest r : decode_str chk rest = SInvalid r -> (length r + 4 <= length rest)%nat.
+Lemma decode_str_inv_len chk i rest r : decode_str chk false i rest = SInvalid r -> (length r + 4 <= length rest)%nat.
 Proof.
   unfold decode_str. destruct rest as [|a [|b [|c [|d r0]]]]; try (destruct chk; discriminate).
   destruct (be_decw [a; b; c; d] =? 4294967295); [|destruct (blen r0 <? be_decw [a; b; c; d]); discriminate].
   intros H. inversion H; subst. cbn [length]. lia.
 Qed.
-Lemma decode_str_checked_no_panic rest : decode_str true rest <> SPanic.
+Lemma decode_str_checked_no_panic i rest : decode_str true false i rest <> SPanic.
 Proof.
   unfold decode_str. destruct rest as [|a [|b [|c [|d r0]]]]; try discriminate.
   destruct (be_decw [a; b; c; d] =? 4294967295); [discriminate|].
@@ -30,14 +30,14 @@ Proof.
 Qed.
 
 (* the checked loop ends within its fuel and never panics *)
-Lemma hdr_loop_total : forall fuel rest acc, (length rest < fuel)%nat ->
-  fst (hdr_loop true fuel rest acc) = HOk \/ fst (hdr_loop true fuel rest acc) = HErr.
+Lemma hdr_loop_total : forall fuel i rest acc, (length rest < fuel)%nat ->
+  fst (hdr_loop true false fuel i rest acc) = HOk \/ fst (hdr_loop true false fuel i rest acc) = HErr.
 Proof.
-  induction fuel as [|k IH]; intros rest acc Hl; [lia|].
+  induction fuel as [|k IH]; intros i rest acc Hl; [lia|].
   cbn [hdr_loop]. destruct rest as [|x rest']; [now left|].
-  destruct (decode_str true (x :: rest')) as [key r|r| |] eqn:E1.
+  destruct (decode_str true false i (x :: rest')) as [key r|r| |] eqn:E1.
   - apply decode_str_ok_len in E1. destruct E1 as [L1 _].
-    destruct (decode_str true r) as [val r'|r'| |] eqn:E2.
+    destruct (decode_str true false (next_idx false i (x :: rest') r) r) as [val r'|r'| |] eqn:E2.
     + apply decode_str_ok_len in E2. destruct E2 as [L2 _]. apply IH. lia.
     + apply decode_str_inv_len in E2. apply IH. lia.
     + now right.
@@ -48,7 +48,12 @@ Proof.
 Qed.
 
 Theorem hdr_decode_total h : fst (hdr_decode true h) = HOk \/ fst (hdr_decode true h) = HErr.
-Proof. apply hdr_loop_total. lia. Qed.
+Proof. unfold hdr_decode, hdr_decode_sw. change hdr_end_u32 with false. apply hdr_loop_total. lia. Qed.
+
+(* the uint32 form of the end test (not the code in the tree: hdr_end_u32 = false) lets a key length of 2^32-3 through:
+   4 + (2^32-3) wraps to 1 <= totalLen, and bytes[4:1:1] panics *)
+Lemma hdr_decode_u32_panics : fst (hdr_decode_sw true true [255;255;255;253; 1; 2; 3; 4]) = HPanic.
+Proof. vm_compute. reflexivity. Qed.
 
 (* the unchecked decoder (mosn.io/pkg header.DecodeHeader) panics on 1-3 dangling bytes *)
 Lemma hdr_decode_unchecked_panics : fst (hdr_decode false [0; 1]) = HPanic.
@@ -61,7 +66,7 @@ Definition kvs_ok (kvs : list kv) : Prop := Forall (fun p => str_ok (fst p) /\ s
 Lemma be_enc4_shape v : exists a b c d, be_enc 4 v = [a; b; c; d].
 Proof. cbn [be_enc app]. repeat eexists. Qed.
 
-Lemma decode_str_enc chk s rest : str_ok s -> decode_str chk (enc_str s ++ rest) = SOk s rest.
+Lemma decode_str_enc chk i s rest : str_ok s -> decode_str chk false i (enc_str s ++ rest) = SOk s rest.
 Proof.
   intros Hs. unfold enc_str. destruct (be_enc4_shape (blen s)) as [a [b [c [d E]]]].
   rewrite E. cbn [app]. cbn [decode_str]. rewrite <- E.
@@ -80,10 +85,10 @@ Qed.
 Lemma enc_str_not_nil s rest : enc_str s ++ rest <> [].
 Proof. unfold enc_str. destruct (be_enc4_shape (blen s)) as [a [b [c [d E]]]]. rewrite E. discriminate. Qed.
 
-Lemma hdr_loop_roundtrip chk : forall kvs fuel acc, kvs_ok kvs -> (length (hdr_encode kvs) < fuel)%nat ->
-  hdr_loop chk fuel (hdr_encode kvs) acc = (HOk, acc ++ kvs).
+Lemma hdr_loop_roundtrip chk : forall kvs fuel i acc, kvs_ok kvs -> (length (hdr_encode kvs) < fuel)%nat ->
+  hdr_loop chk false fuel i (hdr_encode kvs) acc = (HOk, acc ++ kvs).
 Proof.
-  induction kvs as [|[k v] r IH]; intros fuel acc Hok Hf.
+  induction kvs as [|[k v] r IH]; intros fuel i acc Hok Hf.
   - cbn. destruct fuel; now rewrite app_nil_r.
   - inversion Hok as [|? ? [Hk Hv] Hr]; subst. cbn [fst snd] in *.
     destruct fuel as [|f]; [lia|]. cbn [hdr_encode] in *.
@@ -94,7 +99,7 @@ Proof.
 Qed.
 
 Theorem hdr_roundtrip chk kvs : kvs_ok kvs -> hdr_decode chk (hdr_encode kvs) = (HOk, kvs).
-Proof. intros H. unfold hdr_decode. rewrite hdr_loop_roundtrip; auto. Qed.
+Proof. intros H. unfold hdr_decode, hdr_decode_sw. change hdr_end_u32 with false. rewrite hdr_loop_roundtrip; auto. Qed.
 
 (* a block shorter than 2^32-1 bytes has only representable strings *)
 Lemma kvs_ok_of_len kvs : hdr_enc_len kvs < 4294967295 -> kvs_ok kvs.
